@@ -143,8 +143,14 @@ Denotes(k, v, s) ==
 
 Idx(row, n) == {i \in 1..Len(row) : row[i].n = n}
 Cell(row, n) == row[CHOOSE i \in Idx(row, n) : TRUE]
+\* the column text the client hands out (get_raw); the driver logs it only where it differs from the canonical text v
+RawOf(c) == IF "raw" \in DOMAIN c THEN c.raw ELSE c.v
+\* every column carries the record: the typed value denotes the database string and the column text *is* that string
+\* (upper-case hex, leading zeros of a number are part of the record)
 RowOk(row, exp) ==
-  \A n \in DOMAIN exp : Cardinality(Idx(row, n)) = 1 /\ Denotes(Cell(row, n).k, Cell(row, n).v, exp[n])
+  \A n \in DOMAIN exp : /\ Cardinality(Idx(row, n)) = 1
+                         /\ Denotes(Cell(row, n).k, Cell(row, n).v, exp[n])
+                         /\ RawOf(Cell(row, n)) = exp[n]
 KeyOf(row, col) == IF Cardinality(Idx(row, col)) = 1 /\ Cell(row, col).k = "str" THEN Cell(row, col).v ELSE ""
 \* a response: at least one row, every row carries the record, one row per region
 RespOk(rows, exp, ep) ==
